@@ -12,9 +12,9 @@ compressed data corrupted). Coverage-guided byte mutation is a different techniq
 EVIDENCE = dict(
     level="model_checking",
     rule="(1) every token stream of <= 4 (thorough 5) tokens over {name,int,<<,>>,[,],lone '>'} from ParserLoop.tla through "
-         "core.Parser / contentstream.Parser; (2) every reference graph on 3 nodes from GraphWalk.tla rendered as a /Kids tree and a "
+         "core.Parser / contentstream.Parser, each followed by an operator, by white space and the end of the data, and by the end of the data at once; (2) every reference graph on 3 nodes from GraphWalk.tla rendered as a /Kids tree and a "
          "/Prev chain and walked by every entry point incl. ResolveDeep; (3) Faults.tla: every (format, fault kind, site selector, "
-         "parameter) single fault over 10 base documents (4 PDF layouts: classic table / xref+object streams / PNG-predicted streams incl. predicted xref streams / TIFF-predicted streams; DOCX, ODT, XLSX, PPTX, EPUB, HTML), every numeric field x 4 extreme values - rewritten in the finished file ('number') and replaced before the file is laid out so that all offsets and lengths stay consistent ('field') - including the fields inside encoded streams: every number of every object-stream header and every field of every cross-reference-stream row, rebuilt by the writer - and every reference x 3 retargets at every site; thorough adds "
+         "parameter) single fault over 10 base documents (4 PDF layouts: classic table / xref+object streams / PNG-predicted streams incl. predicted xref streams / TIFF-predicted streams; DOCX, ODT, XLSX, PPTX, EPUB, HTML), every numeric field x 4 extreme values - rewritten in the finished file ('number') and replaced before the file is laid out so that all offsets and lengths stay consistent ('field') - and what sits inside the streams ('payload': every token boundary of every page content part, ToUnicode program and embedded font program cut there, cut with a white-space character left, or one token removed, the file laid out around the damaged payload) - including the fields inside encoded streams: every number of every object-stream header and every field of every cross-reference-stream row, rebuilt by the writer - and every reference x 3 retargets at every site; thorough adds "
          "truncation at every token boundary and -simulate double faults; each damaged input goes through 11-13 public entry "
          "points inside watched child processes. ParserLoop / GraphWalk are checked for Termination under weak fairness, their "
          "pinned variants refuted. Recorded Call events validated by FaultsTrace.tla. Non-trivial = input actually damaged.",
@@ -40,7 +40,7 @@ def run(ctx):
         key = vlib.json.dumps(t)
         if key not in seen:
             seen.add(key)
-            cases.append({"toks": t["toks"], "bad": t.get("bad", "gt")})
+            cases.append({"toks": t["toks"], "bad": t.get("bad", "gt"), "ends": t.get("ends", ["op"])})
     for g in graphs:
         cases.append({"graph": g["graph"]})
     for sp in ("lenstm", "len2cycle",        # cycles that run through stream /Length entries
@@ -63,6 +63,13 @@ def run(ctx):
     for fmt in ("pdf-stream", "pdf-png", "pdf-ttf"):
         for val in ("0", "-1", "2147483648", "9223372036854775807"):
             cases.append({"fmt": fmt, "faults": [{"kind": "instream", "site": 0, "param": val}], "all": True})
+    # ... and what sits inside the streams: every token boundary of every page content part, ToUnicode program and font program
+    if q:
+        pl = [("pdf-classic", "cut"), ("pdf-classic", "cutsp"), ("pdf-stream", "drop"), ("pdf-ttf", "cut"), ("pdf-ttf", "cutsp"), ("pdf-ttf", "drop")]
+    else:
+        pl = [(f, d) for f in ("pdf-classic", "pdf-stream", "pdf-png", "pdf-tiff", "pdf-ttf") for d in ("cut", "cutsp", "drop")]
+    for fmt, dmg in pl:
+        cases.append({"fmt": fmt, "faults": [{"kind": "payload", "site": 0, "param": dmg}], "all": True})
     for fmt in ("pdf-classic", "pdf-stream", "pdf-png", "pdf-tiff"):
         for tgt in ("self", "ancestor", "missing"):
             cases.append({"fmt": fmt, "faults": [{"kind": "retarget", "site": 0, "param": tgt}], "all": True})
